@@ -69,6 +69,10 @@ func (ex *Exec) callFn(fr *Frame, st *State, pc *Term, fn *ssa.Function, args []
 		return ex.specForall(fr, st, pc, args[0]), pc
 	case "verif_forall_range":
 		return ex.specForallRange(fr, st, pc, args[0].(VBV).T, args[1].(VBV).T, args[2]), pc
+	case "verif_preserved":
+		ex.lastPreserved = [2]Value{args[0], args[1]}
+		ex.lastPreservedSt = st.clone() // holds the cells of the captured variables
+		return VBool{True}, pc
 	case "verif_held":
 		// the mutex is held by the current request
 		return VBool{Select(st.comp(compHeld, heldSort), lockID(args[0]))}, pc
@@ -283,7 +287,7 @@ func (ex *Exec) evalClauseEnv(fr *Frame, st *State, pc *Term, cl *Clause, env *c
 // evalClause for the function being verified (top frame)
 func (ex *Exec) evalClause(fr *Frame, st *State, pc *Term, cl *Clause, results []Value) *Term {
 	env := &clauseEnv{args: fr.params, results: results, pre: fr.entry}
-	if cl.Kind == "invariant" || cl.Kind == "decreases" || cl.Kind == "assert" {
+	if cl.Kind == "invariant" || cl.Kind == "decreases" || cl.Kind == "assert" || cl.Kind == "preserved" {
 		env.cells = func(p ClauseParam) Value { return ex.cellValue(fr, st, cl, p) }
 	}
 	v := ex.evalClauseEnv(fr, st, pc, cl, env)
